@@ -23,6 +23,8 @@
 //!                            counter on the whole program, real client counter on the creations made
 //!                            while the flag is on (c=) and on the whole program (c2=)
 //!                                                                                     -> s=.. c=.. c2=.. ## verdict
+//!   jsonenc <s>              JSON codec end to end for the string value <s>: real JsonSerdeCodec::encode,
+//!                            real data site, browser twin, real JsonSerdeCodec::decode        -> <json> <read|none> ## verdict
 //!   js <src>                 browser twins only: value of the string literal <src>            -> <s> | syntax-error
 //!   tok <text>               browser twins only: tokenizer + scanner on arbitrary text       -> tok=.. danger=..
 //!   lit d|e <s>              one-value session: the `__RESOLVED_RESOURCES[0] = …;` (d) or
@@ -977,6 +979,21 @@ fn op(c: &mut Case, tags: &HashMap<String, String>, line: &str) -> String {
             };
             format!("{head} {gs} ## {v}")
         }
+        ["jsonenc", h] => {
+            // the JSON codec end to end for a string value: real JsonSerdeCodec::encode, real data
+            // site, browser twin, real JsonSerdeCodec::decode
+            let Some(s) = unhex_str(h) else { return "bad-op".into() };
+            let enc = IntoEncodedString::into_encoded_string(<JsonSerdeCodec as Encoder<String>>::encode(&s).unwrap());
+            let back: Option<String> = lit_chunk(true, &enc)
+                .and_then(|chunk| js::run_script(&cps(&chunk), &js::State::default()))
+                .and_then(|st| st.assign_log.first().map(|x| js::utf16_to_cps(&x.1)))
+                .and_then(|v| v.iter().map(|&c| char::from_u32(c)).collect::<Option<String>>())
+                .and_then(|read| {
+                    <JsonSerdeCodec as Decoder<String>>::decode(<str as FromEncodedStr>::from_encoded_str(&read).ok()?).ok()
+                });
+            let v = if back.as_deref() == Some(s.as_str()) { "ok".to_string() } else { format!("fail {}", data_class(&enc)) };
+            format!("{} {} ## {v}", hex(enc.as_bytes()), back.map(|b| hex(b.as_bytes())).unwrap_or_else(|| "none".into()))
+        }
         ["js", h] => {
             let Some(src) = unhex_str(h) else { return "bad-op".into() };
             let u = cps(&src);
@@ -1074,6 +1091,12 @@ fn compute_tags(ops_path: &str) -> HashMap<String, String> {
                         t.push("ids");
                         if *k == "islands" || p.contains('f') {
                             t.push("ids-toggle")
+                        }
+                    }
+                    ["jsonenc", h] => {
+                        t.push("jsonenc");
+                        if let Some(s) = unhex_str(h) {
+                            payload_tags(t, &s, false, true)
                         }
                     }
                     ["js", _] => t.push("twin-js"),
@@ -1379,7 +1402,10 @@ fn gen(seed: u64, n: usize, path: &str) -> std::io::Result<()> {
                 let mut l = vec![];
                 for _ in 0..k {
                     let s = gen_string(&mut r, 8);
-                    if r.chance(3, 5) {
+                    if r.chance(1, 5) {
+                        // never in a known-finding class: the JSON codec is proved correct in full
+                        l.push(format!("jsonenc {}", hex(s.as_bytes())));
+                    } else if r.chance(3, 5) {
                         let s = if safe { sanitize(&s, true) } else { s };
                         l.push(format!("lit d {}", hex(s.as_bytes())));
                     } else {
